@@ -1,6 +1,8 @@
-(* Engine Chan: stranded_b reflects Stranded; the three refutation witnesses of NoStrand. *)
+(* Engine Chan: stranded_b / rx_stranded_b reflect the bad states; the refutation witness of the
+   receiver-side clause on the current code (close_this_sender), and the three witnesses that
+   refuted NoStrand on the code BEFORE /repo commit 904d17adb85 (model ModelMpscOld.step_old). *)
 From Coq Require Import List Arith Bool NArith Lia.
-From HV Require Import Chan.ModelMpsc.
+From HV Require Import Chan.ModelMpsc Chan.ModelMpscOld.
 Import ListNotations.
 
 Lemma forallb_seq_iff : forall (f : nat -> bool) n,
@@ -52,6 +54,23 @@ Lemma run_enabled_reachable : forall p s0 ls s,
   run_enabled p s0 ls = Some s -> reachable p s0 ls s.
 Proof. intros p s0 ls s E. apply (reachable_app p s0 [] s0 (r_nil p s0) ls s E). Qed.
 
+Lemma reachable_old_app : forall p s0 tr s, reachable_old p s0 tr s ->
+  forall ls s', run_enabled_old p s ls = Some s' -> reachable_old p s0 (tr ++ ls) s'.
+Proof.
+  intros p s0 tr s R ls. revert tr s R.
+  induction ls as [|l ls IH]; intros tr s R s' E; cbn in E.
+  - inversion E; subst. rewrite app_nil_r. exact R.
+  - destruct (step_old p s l) as [[s1 o]|] eqn:St; [|discriminate].
+    replace (tr ++ l :: ls) with ((tr ++ [l]) ++ ls) by (rewrite <- app_assoc; reflexivity).
+    eapply IH; [|exact E]. eapply ro_snoc; eassumption.
+Qed.
+
+Lemma run_enabled_old_reachable : forall p s0 ls s,
+  run_enabled_old p s0 ls = Some s -> reachable_old p s0 ls s.
+Proof. intros p s0 ls s E. apply (reachable_old_app p s0 [] s0 (ro_nil p s0) ls s E). Qed.
+
+(* ---- the code before 904d17adb85 (wake_sender pops one waker) ---- *)
+
 (* Witness 1 (strict executor, tasks polled only when woken).  Capacity 1.
    Task 0 fills the buffer; task 1 ("C") polls `send 3` and parks; task 2 ("T") polls its two
    joined sends `send 1`, `send 2`: its waker is registered twice.  Three receives later the
@@ -61,14 +80,14 @@ Definition w1_trace : list label :=
   [Poll 0; Poll 1; Poll 2; PollRx; Poll 2; PollRx; Poll 2; PollRx; PollRx].
 
 Lemma no_strand_refuted :
-  exists s, reachable strict (init (Some 1) w1_progs) w1_trace s /\ Stranded s /\
+  exists s, reachable_old strict (init (Some 1) w1_progs) w1_trace s /\ Stranded s /\
             cap_ok (Some 1) = true.
 Proof.
-  destruct (run_enabled strict (init (Some 1) w1_progs) w1_trace) as [s|] eqn:E;
+  destruct (run_enabled_old strict (init (Some 1) w1_progs) w1_trace) as [s|] eqn:E;
     [|vm_compute in E; discriminate].
-  exists s. split; [apply run_enabled_reachable; exact E|]. split; [|reflexivity].
+  exists s. split; [apply run_enabled_old_reachable; exact E|]. split; [|reflexivity].
   apply stranded_b_iff.
-  assert (H : option_map stranded_b (run_enabled strict (init (Some 1) w1_progs) w1_trace) = Some true)
+  assert (H : option_map stranded_b (run_enabled_old strict (init (Some 1) w1_progs) w1_trace) = Some true)
     by (vm_compute; reflexivity).
   rewrite E in H. cbn in H. inversion H. reflexivity.
 Qed.
@@ -81,14 +100,14 @@ Definition w2_trace : list label :=
 
 Lemma no_strand_spurious_refuted :
   exists s, single_progs w2_progs = true /\
-            reachable (mkPolicy true false) (init (Some 1) w2_progs) w2_trace s /\ Stranded s.
+            reachable_old (mkPolicy true false) (init (Some 1) w2_progs) w2_trace s /\ Stranded s.
 Proof.
-  destruct (run_enabled (mkPolicy true false) (init (Some 1) w2_progs) w2_trace) as [s|] eqn:E;
+  destruct (run_enabled_old (mkPolicy true false) (init (Some 1) w2_progs) w2_trace) as [s|] eqn:E;
     [|vm_compute in E; discriminate].
-  exists s. split; [reflexivity|]. split; [apply run_enabled_reachable; exact E|].
+  exists s. split; [reflexivity|]. split; [apply run_enabled_old_reachable; exact E|].
   apply stranded_b_iff.
   assert (H : option_map stranded_b
-                (run_enabled (mkPolicy true false) (init (Some 1) w2_progs) w2_trace) = Some true)
+                (run_enabled_old (mkPolicy true false) (init (Some 1) w2_progs) w2_trace) = Some true)
     by (vm_compute; reflexivity).
   rewrite E in H. cbn in H. inversion H. reflexivity.
 Qed.
@@ -101,14 +120,14 @@ Definition w3_trace : list label :=
 
 Lemma no_strand_cancel_refuted :
   exists s, single_progs w3_progs = true /\
-            reachable (mkPolicy false true) (init (Some 1) w3_progs) w3_trace s /\ Stranded s.
+            reachable_old (mkPolicy false true) (init (Some 1) w3_progs) w3_trace s /\ Stranded s.
 Proof.
-  destruct (run_enabled (mkPolicy false true) (init (Some 1) w3_progs) w3_trace) as [s|] eqn:E;
+  destruct (run_enabled_old (mkPolicy false true) (init (Some 1) w3_progs) w3_trace) as [s|] eqn:E;
     [|vm_compute in E; discriminate].
-  exists s. split; [reflexivity|]. split; [apply run_enabled_reachable; exact E|].
+  exists s. split; [reflexivity|]. split; [apply run_enabled_old_reachable; exact E|].
   apply stranded_b_iff.
   assert (H : option_map stranded_b
-                (run_enabled (mkPolicy false true) (init (Some 1) w3_progs) w3_trace) = Some true)
+                (run_enabled_old (mkPolicy false true) (init (Some 1) w3_progs) w3_trace) = Some true)
     by (vm_compute; reflexivity).
   rewrite E in H. cbn in H. inversion H. reflexivity.
 Qed.
